@@ -32,7 +32,7 @@ def expIpRecFrom (c : Config) (names : List (Nat × String)) (idx : Nat) (fs : L
       [(p.2, (match p.1.1.ent with | some _ => c.t.ipEnterprise | none => c.t.ipField p.1.1.typ), v)])
 
 theorem ipParseRec_enc_from (c : Config) (names : List (Nat × String))
-    (harms : DnArmsOk c.t.dnArms = true) (hnp : NoProto c) :
+    (harms : DnArmsOk_a6 c.t.dnArms = true) (hnp : NoProto c) :
     ∀ (fs : List IpTField) (r : List FieldBytes) (idx : Nat) (es : List Rec) (rest : Bytes),
       fs.length = r.length → recValOk c fs r = true → expIpRecFrom c names idx fs r = some es →
       ipParseRec c fs idx (r.flatMap encFieldBytes ++ rest) = some (es, rest) := by
@@ -67,7 +67,7 @@ theorem ipParseRec_enc_from (c : Config) (names : List (Nat × String))
 
 /-- (e) `ipParseRec` on a printed record returns the expected entries -/
 theorem ipParseRec_enc (c : Config) (names : List (Nat × String))
-    (harms : DnArmsOk c.t.dnArms = true) (hnp : NoProto c)
+    (harms : DnArmsOk_a6 c.t.dnArms = true) (hnp : NoProto c)
     (fs : List IpTField) (r : List FieldBytes) (es : List Rec) (rest : Bytes)
     (hok : recValOk c fs r = true) (h : expIpRec c names fs r = some es) :
     ipParseRec c fs 0 (r.flatMap encFieldBytes ++ rest) = some (es, rest) := by
@@ -99,7 +99,7 @@ theorem flatMap_recs_length (recs : List (List FieldBytes)) :
   | cons r rs ih => simp only [List.flatMap_cons, List.length_append, List.map_cons, List.sum_cons, ih, recSize]
 
 theorem ipRecLoop_enc (c : Config) (names : List (Nat × String))
-    (harms : DnArmsOk c.t.dnArms = true) (hnp : NoProto c) (fs : List IpTField) :
+    (harms : DnArmsOk_a6 c.t.dnArms = true) (hnp : NoProto c) (fs : List IpTField) :
     ∀ (recs : List (List FieldBytes)) (ents : List (List Rec)) (fuel : Nat) (pad : Bytes),
       (∀ r ∈ recs, recValOk c fs r = true) →
       allSome (recs.map (expIpRec c names fs)) = some ents →
